@@ -129,6 +129,7 @@ func (w *cliWorld) cb() {
 	w.mu.Unlock()
 	if closeNow {
 		w.r.Fault("close")
+		w.r.HoldsOff()
 		w.c.Close() // on the client's own goroutine, inside the user's callback
 	}
 }
@@ -181,6 +182,7 @@ func (w *cliWorld) closeClient() {
 		w.closedFirst = !w.waitSeen // at rest: the waiter goroutine has recorded any value already yielded
 		w.mu.Unlock()
 	}
+	w.r.HoldsOff()
 	w.c.Close()
 	syncWait()
 }
